@@ -1134,6 +1134,40 @@ def _adopt_returned_closures(fn):
         del stmts[i]
 
 
+def _drop_unambiguous_suffixes(fn):
+    """a local that came with an expanded helper (`ret__h1`) gets the helper's own name back (`ret`) when that name is free in the caller: no
+    parameter, local, global or free name of the caller is called so, and no second expansion brought a local of the same base name. Rules that
+    know a local of the original code by its name then read the extracted-and-expanded form like the original."""
+    import re
+    names = {}
+    for x in ast.walk(fn):
+        if isinstance(x, ast.Name):
+            names.setdefault(x.id, 0)
+            names[x.id] += 1
+        elif isinstance(x, ast.arg):
+            names.setdefault(x.arg, 0)
+        elif isinstance(x, ast.ExceptHandler) and x.name:
+            names.setdefault(x.name, 0)
+        elif isinstance(x, (ast.FunctionDef, ast.AsyncFunctionDef)):
+            names.setdefault(x.name, 0)
+    by_base = {}
+    for n in names:
+        m = re.fullmatch(r'(.+?)__h(\d+)', n)
+        if m:
+            by_base.setdefault(m.group(1), []).append(n)
+    ren = {}
+    for base, lst in by_base.items():
+        if len(lst) == 1 and base not in names and not base.startswith('_'):
+            ren[lst[0]] = base
+    if not ren:
+        return
+    for x in ast.walk(fn):
+        if isinstance(x, ast.Name) and x.id in ren:
+            x.id = ren[x.id]
+        elif isinstance(x, ast.ExceptHandler) and x.name in ren:
+            x.name = ren[x.name]
+
+
 def normalise_calls(P):
     base = baseline()
     stats = {'keywords_reordered': 0, 'expanded': [], 'functions_with_new_constants': inline_new_constants(P)}
@@ -1174,6 +1208,7 @@ def normalise_calls(P):
                     from .canon import canonicalise_function
                     _adopt_returned_closures(f.node)
                     canonicalise_function(f.node, generated=True)
+                    _drop_unambiguous_suffixes(f.node)
                     # closures that came with an expanded factory helper now live in this function
                     P._collect_nested(f.mod, f.cls, f.node, q, f.path)
             # a new helper every use of which was expanded no longer exists as a unit of the program the rules see: its statements are
